@@ -4,7 +4,9 @@ its property, restores the tree, and writes /verif/seeded/MATRIX.md."""
 import json, os, subprocess, sys
 root = "/verif/seeded"
 rows = []
-ids = sys.argv[1:] or sorted(d for d in os.listdir(root) if os.path.isdir(os.path.join(root, d)))
+merge = "--merge" in sys.argv[1:]
+args = [a for a in sys.argv[1:] if a != "--merge"]
+ids = args or sorted(d for d in os.listdir(root) if os.path.isdir(os.path.join(root, d)))
 for d in ids:
     meta = json.load(open(os.path.join(root, d, "meta.json")))
     prop = meta["property"]
@@ -24,9 +26,19 @@ for d in ids:
     first = viol[0].strip()[10:170] if viol else ([l for l in out.splitlines() if l.startswith("VIOLATION")] or [""])[0][:170]
     rows.append((d, prop, "DETECTED" if detected else "MISSED", first))
     print(d, rows[-1][2], first[:100], flush=True)
-if sys.argv[1:]:
+if args and not merge:
     print(sum(1 for r in rows if r[2] == "DETECTED"), "of", len(rows), "detected (partial run: MATRIX.md left alone)")
     sys.exit(0)
+if merge:
+    # --merge <ids>: rows of this run replace / extend the rows of the existing matrix (same /repo HEAD)
+    old = {}
+    for l in open(os.path.join(root, "MATRIX.md")):
+        f = [x.strip() for x in l.strip().strip("|").split(" | ")]
+        if len(f) == 4 and f[0] not in ("seeded change", "---") and not f[0].startswith("-"):
+            old[f[0]] = tuple(f)
+    for r in rows:
+        old[r[0]] = r
+    rows = [old[k] for k in sorted(old)]
 with open(os.path.join(root, "MATRIX.md"), "w") as f:
     f.write("# Seeded changes vs. the quick checks (tools/run_seeded.py, on /repo HEAD %s)\n\n" % subprocess.run(["git", "-C", "/repo", "log", "--format=%h", "-1"], capture_output=True, text=True).stdout.strip())
     f.write("| seeded change | property | result | first violation reported |\n|---|---|---|---|\n")
